@@ -29,6 +29,31 @@ SimRead ==
       \/ Next(b, n) \/ Peek(b, n) \/ Skip(b, n) \/ ReadBinary(b, n) \/ ReadString(b, n)
       \/ ReadCopy(b, n) \/ Slice(b, n) \/ ReadByte(b) \/ Until(b) \/ GetBytes(b)
 SimRelease == \E b \in Bufs : Release(b)
+\* chains of Slice readers (a Slice of a Slice, consumed and released in any order while the parent still holds data)
+Sls == {b \in Bufs : Alive(b) /\ bufs[b].kind = "sl"}
+Big == {b \in Bufs : Readable(b) /\ RLen(b) > 1 /\ FreeBufs # {}}
+SimNested ==
+    \E c \in {Pick(1 .. 4)} :
+    IF Sls # {} /\ (c > 1 \/ Big = {})
+    THEN \E b \in {Pick(Sls)} :
+            IF RLen(b) = 0 THEN Release(b)
+            ELSE \E n \in {Pick({1, RLen(b) \div 2, RLen(b) - 1, RLen(b)} \cap (1 .. RLen(b)))} : \E k \in {Pick(1 .. 5)} :
+                    CASE k <= 2 /\ FreeBufs # {} -> Slice(b, n)
+                      [] k = 3 -> Skip(b, RLen(b))
+                      [] k = 4 /\ Cardinality(ZcLive) < MaxLive -> Next(b, n)
+                      [] OTHER -> Release(b)
+    ELSE \E b \in {Pick(Big)} : \E n \in {Pick({1, RLen(b) \div 2, RLen(b) - 1})} : Slice(b, n)
+EnNested == Sls # {} \/ Big # {}
+\* the Peek cache: Peek over several nodes, small consuming reads, Peek again - on the buffer that holds most
+Fat == {b \in Bufs : Readable(b) /\ RLen(b) > 1 /\ \A c \in Bufs : (Readable(c) => RLen(c) <= RLen(b))}
+SimPeeky ==
+    \E b \in {Pick(Fat)} : \E k \in {Pick(1 .. 8)} : \E n \in {Pick({RLen(b), RLen(b) - 1, RLen(b) \div 2})} :
+        CASE k <= 3 /\ Cardinality(ZcLive) < MaxLive -> Peek(b, n)
+          [] k = 4 -> ReadByte(b)
+          [] k = 5 /\ 1 \in ReadN(b) -> Skip(b, 1)
+          [] k = 6 /\ Cardinality(ZcLive) < MaxLive /\ 1 \in ReadN(b) -> Next(b, 1)
+          [] k = 7 /\ bufs[b].kind # "sl" /\ 1 \in ReadN(b) -> ReadCopy(b, 1)
+          [] OTHER -> ReadByte(b)
 SimLife == (\E c \in {Pick(Caps)} : New(c)) \/ NewIn \/ (\E b \in Bufs : Close(b))
 
 \* always enabled, so a behaviour never ends early when the drawn class has no enabled action
@@ -49,11 +74,13 @@ Else == IF AnyW THEN SimFlush ELSE IF EnLife THEN SimLife ELSE IF AnyA THEN SimR
 SimNext ==
     \E d \in {Pick(1 .. 100)} :
        CASE ~(\E b \in Bufs : Alive(b)) -> (IF EnLife THEN SimLife ELSE Nop)
-         [] d <= 26            -> (IF AnyWI THEN SimWrite ELSE Else)
-         [] d <= 34            -> (IF AnyWnoAp THEN SimAck ELSE Else)
-         [] d <= 50            -> (IF AnyW THEN SimFlush ELSE Else)
-         [] d <= 56            -> (IF EnAppend THEN SimAppend ELSE Else)
-         [] d <= 88            -> (IF AnyA THEN SimRead ELSE Else)
+         [] d <= 24            -> (IF AnyWI THEN SimWrite ELSE Else)
+         [] d <= 31            -> (IF AnyWnoAp THEN SimAck ELSE Else)
+         [] d <= 46            -> (IF AnyW THEN SimFlush ELSE Else)
+         [] d <= 51            -> (IF EnAppend THEN SimAppend ELSE Else)
+         [] d <= 75            -> (IF AnyA THEN SimRead ELSE Else)
+         [] d <= 81            -> (IF EnNested THEN SimNested ELSE Else)
+         [] d <= 88            -> (IF Fat # {} THEN SimPeeky ELSE Else)
          [] d <= 95            -> (IF AnyA THEN SimRelease ELSE Else)
          [] OTHER              -> Else
 =============================================================================
